@@ -738,9 +738,15 @@ func c12RandomCase(c *Case, g map[string]*c12Avail, classes []*c12Class) {
 		p.Bool = cl.Kind == c12Any // the value may be of any type: c12Any positions get fromJSON(toJSON(..)), bool positions (..) == 'x'
 		pre, post := "", ""
 		if cl.Kind == c12Str {
-			filler := []string{"", "x", "a-b ", "${{ 'k' }}", "${{ 1 }}/", "pre ${{ true }} "}
+			filler := []string{"", "x", "a-b ", "${{ 'k' }}", "${{ 1 }}/", "pre ${{ true }} ", "x}} ", "{{.ID}} ", "$ ${ } ", "a }} ${{ 'k' }} {{ "}
 			pre = r.Pick(filler)
-			post = r.Pick([]string{"", "", " tail", "-${{ 'z' }}", "/${{ 0 }}.txt"})
+			if c12SilentText(cl, c12HostileValue(pre+"${{")) {
+				pre = "x"
+			}
+			if c12PlainOnly(cl) && pre != "" && c12NeedsQuote(cl.Prefix+pre) {
+				pre = "x" + pre // keep the scalar plain (see c12PlainOnly)
+			}
+			post = r.Pick([]string{"", "", " tail", "-${{ 'z' }}", "/${{ 0 }}.txt", " }} {{ x", " ${ $"})
 		}
 		if cl.Kind == c12Bool || cl.Kind == c12IfBare {
 			p = p.wrap("(", ")", false)
@@ -773,6 +779,13 @@ func c12RandomCase(c *Case, g map[string]*c12Avail, classes []*c12Class) {
 			c.Violation("C12:position-never-checked:"+cl.Name, fmt.Sprintf("position class %q (table key %s): nothing is reported, not even the control probes toJSON(jobs) and toJSON(env) - placeholders at this position are not checked at all", cl.Name, c12KeyLabel(cl.Key)), c12Detail(cl, res, exp))
 			continue
 		}
+		if cl.Kind == c12Str && c12HostileValue(pre+"${{") && len(res.Spurious) == 0 {
+			if ctrl, _ := c12Run(c, g, cl, p, "x", post, tight, dq); ctrl.ok() {
+				c.Violation("C12:verdict-depends-on-surrounding-text:"+c12HostileSig+":not-reported",
+					fmt.Sprintf("random embedding at position class %q (key %s): with the literal text %q in front of the placeholder the predicted reports are missing (%v); with the text \"x\" instead they are all there", cl.Name, c12KeyLabel(cl.Key), pre, res.Missing), c12Detail(cl, res, exp))
+				continue
+			}
+		}
 		if !g[cl.Key].Func["hashfiles"] && len(res.Spurious) == 0 && c12AllInsideHash(p, res) {
 			c.Violation("C12:context-in-arguments-of-unavailable-function-not-reported",
 				fmt.Sprintf("random embedding at position class %q (key %s): every unreported name sits inside the arguments of a hashFiles() call that is itself unavailable there; missing=%v", cl.Name, c12KeyLabel(cl.Key), res.Missing), c12Detail(cl, res, exp))
@@ -789,10 +802,12 @@ func c12RandomCase(c *Case, g map[string]*c12Avail, classes []*c12Class) {
 // ---------------------------------------------------------------------------
 
 func runC12(r *Run) {
-	r.Rule = "complete cross product: every placeholder position class of the workflow syntax (one clean template each) x 12 contexts + 5 special functions x embeddings {toJSON(ctx) / fn(), upper-case name, nested in call+comparison+negation+logical operator, second placeholder of the scalar}; expected availability diagnostics (exact line:col) from an independently transcribed documentation table and a position->key map. Plus the API boundary (WorkflowKeyAvailability over all table keys and misspelt keys, SpecialFunctionNames, a semantics checker configured with the result) and random expressions with 1-3 names in random letter case, nesting (also inside hashFiles arguments), quoting and surrounding text. Several names in one expression: every class x 12 contexts inside the arguments of hashFiles (7 shapes; both verdicts predicted independently) and every class x 17x17 ordered name pairs as arguments of one call / operands of one operator. Non-trivial = distinct (class, name, embedding) triple, (class, context, hashFiles shape), (class, name, name), distinct API key, distinct random workflow."
+	r.Rule = "complete cross product: every placeholder position class of the workflow syntax (one clean template each) x 12 contexts + 5 special functions x embeddings {toJSON(ctx) / fn(), upper-case name, nested in call+comparison+negation+logical operator, second placeholder of the scalar}; expected availability diagnostics (exact line:col) from an independently transcribed documentation table and a position->key map. Plus the API boundary (WorkflowKeyAvailability over all table keys and misspelt keys, SpecialFunctionNames, a semantics checker configured with the result) and random expressions with 1-3 names in random letter case, nesting (also inside hashFiles arguments), quoting and surrounding text. Surrounding literal text and YAML style: every class x 16 text variants (`}}`, `{{`, `}`, `${`, `$`, JSON, go-template before/after the placeholder, on earlier lines of block scalars, inside a string literal of the expression) x 7 scalar styles (plain, single-, double-quoted, literal, folded, with and without strip chomping), two rotating names per lint. Several names in one expression: every class x 12 contexts inside the arguments of hashFiles (7 shapes; both verdicts predicted independently) and every class x 17x17 ordered name pairs as arguments of one call / operands of one operator. Non-trivial = distinct (class, name, embedding) triple, (class, context, hashFiles shape), (class, name, name), distinct API key, distinct random workflow."
 	r.Assume("the governing table key of a sub-field without a row of its own is the row of the enclosing mapping (container.ports -> jobs.<job_id>.container, services.<id>.image -> jobs.<job_id>.services, strategy.* -> jobs.<job_id>.strategy, with.args -> jobs.<job_id>.steps.with, env var names -> the row of the env mapping)")
 	r.Assume("`undefined variable \"jobs\"` counts as reporting the jobs context where it is not available")
 	r.Assume("only availability-class diagnostics are compared; any other diagnostic of a probe workflow is ignored")
+	r.Assume("exact line:col is compared only where the source text of the scalar equals its value (plain scalars, quoted scalars without escapes, except raw matrix values); for block scalars and escaped quoted scalars the set of reported names is compared")
+	r.Assume("silent class: `steps[*].id` with a literal `}}` before the first placeholder - actionlint decides with ContainsExpression() (`${{` before the first `}}`) whether a step id is a template, so such an id is taken literally; likewise a bare `if:` value is one expression as a whole, so it gets no surrounding text")
 	r.Assume("calls are well-typed (hashFiles only gets string arguments): for a call whose arguments do not match any signature actionlint reports the signature error instead of the availability of the callee")
 	r.Assume("a scalar contains at most one placeholder that mentions a context or special function (actionlint stops checking a scalar at its first faulty placeholder)")
 
@@ -812,6 +827,7 @@ func runC12(r *Run) {
 		{Name: "cross-product", N: len(classes), Do: func(c *Case) { c12ClassCase(c, g, classes[c.Idx]) }},
 		{Name: "hashfiles-arguments", N: len(classes), Do: func(c *Case) { c12HashArgsCase(c, g, classes[c.Idx]) }},
 		{Name: "name-pairs", N: len(classes), Do: func(c *Case) { c12PairsCase(c, g, classes[c.Idx]) }},
+		{Name: "surrounding-text", N: len(classes), Do: func(c *Case) { c12TextCase(c, g, classes[c.Idx], c.Idx) }},
 		{Name: "random-embedding", N: r.Q(1000, 40000), Do: func(c *Case) { c12RandomCase(c, g, classes) }},
 	}
 	r.RunFamilies(fams)
@@ -843,6 +859,7 @@ func runC12(r *Run) {
 	if r.Counter("name_pairs_both_reported") == 0 {
 		r.Inconclusive("name-pairs family never had two unavailable names in one expression")
 	}
+	c12TextFloors(r, g)
 	if !r.SetHas("table_keys", "none") {
 		r.Inconclusive("no position class outside the table was exercised")
 	}
